@@ -248,6 +248,7 @@ class SchemaGen:
         r = self.rng
         n = r.choice([1, 2, 2, 2, 3, 3, 4, 5])
         seen = set()
+        fams = []
         out = []
         tries = 0
         while len(out) < n and tries < 30:
@@ -255,9 +256,12 @@ class SchemaGen:
             snap = dict(self.defined)
             b = self._type(ns, depth, in_union=True)
             key = self._union_key(b, ns)
-            if key in seen:
+            fam = self._family(b, ns)
+            if key in seen or (fam is not None and self._family_conflict(fam, fams)):
                 self.defined = snap  # forget definitions of the discarded branch
                 continue
+            if fam is not None:
+                fams.append(fam)
             seen.add(key)
             out.append(b)
         if r.random() < 0.4 and "null" not in seen and len(out) < 5:
@@ -270,6 +274,29 @@ class SchemaGen:
                 out.insert(r.randrange(len(out) + 1), "null")
         self.features.add("union%d" % len(out))
         return out
+
+    FAMILIES = {"int": "num", "long": "num", "float": "num", "double": "num",
+                "string": "str", "enum": "str", "bytes": "byt", "fixed": "byt"}
+
+    def _family(self, b, ns):
+        """(family, is_logical) of a branch when logical types are in play: a raw
+        value must never be able to land in a logical branch through union
+        probing (its read-back conversion has a restricted domain)."""
+        if not self.o["logical"]:
+            return None
+        t, _full = self._resolve(b, ns) if isinstance(b, str) else (b, None)
+        k = t if isinstance(t, str) else t["type"]
+        fam = self.FAMILIES.get(k)
+        if fam is None:
+            return None
+        return (fam, isinstance(t, dict) and "logicalType" in t)
+
+    @staticmethod
+    def _family_conflict(fam, fams):
+        for f, lg in fams:
+            if f == fam[0] and (lg or fam[1]):
+                return True
+        return False
 
     def _union_key(self, b, ns):
         if isinstance(b, str):
